@@ -1,7 +1,10 @@
 package drv
 
 import (
+	"bytes"
 	"encoding/json"
+	"os"
+	"os/exec"
 	"time"
 
 	"github.com/rulego/streamsql"
@@ -97,6 +100,49 @@ func runAlone(sc SeqScenario) ([]string, string) {
 	return p.close(), ""
 }
 
+// runAloneChild runs one instance in a fresh child process (vh alone) and returns its delivered batches.
+func runAloneChild(sc SeqScenario) ([]string, string) {
+	in, _ := json.Marshal(sc)
+	cmd := exec.Command(os.Args[0], "alone")
+	cmd.Stdin = bytes.NewReader(in)
+	var out bytes.Buffer
+	cmd.Stdout = &out
+	if err := cmd.Run(); err != nil {
+		return nil, "child process: " + err.Error()
+	}
+	var r struct {
+		Outs []string `json:"outs"`
+		Err  string   `json:"err"`
+	}
+	// the engine may print to stdout itself: the result is the last line carrying the marker
+	idx := bytes.LastIndex(out.Bytes(), []byte(aloneMarker))
+	if idx < 0 {
+		return nil, "child output: no result line"
+	}
+	if err := json.Unmarshal(out.Bytes()[idx+len(aloneMarker):], &r); err != nil {
+		return nil, "child output: " + err.Error()
+	}
+	return r.Outs, r.Err
+}
+
+// AloneMain is the child side of runAloneChild: scenario on stdin, {"outs": [...], "err": ""} on stdout.
+func AloneMain() {
+	var sc SeqScenario
+	if err := json.NewDecoder(os.Stdin).Decode(&sc); err != nil {
+		os.Stdout.WriteString("\n" + aloneMarker)
+		json.NewEncoder(os.Stdout).Encode(map[string]any{"outs": []string{}, "err": "decode: " + err.Error()})
+		return
+	}
+	outs, e := runAlone(sc)
+	if outs == nil {
+		outs = []string{}
+	}
+	os.Stdout.WriteString("\n" + aloneMarker)
+	json.NewEncoder(os.Stdout).Encode(map[string]any{"outs": outs, "err": e})
+}
+
+const aloneMarker = "@@VH-ALONE-RESULT@@"
+
 // RunPair returns one cmp event per instance: outputs alone vs outputs when interleaved with the other instance.
 func RunPair(sc PairScenario) ([]Ev, string) {
 	evs := []Ev{}
@@ -105,11 +151,13 @@ func RunPair(sc PairScenario) ([]Ev, string) {
 		reset[k] = v
 	}
 	evs = append(evs, reset)
-	aAlone, e := runAlone(sc.A)
+	// "alone" = the instance in a process of its own (a child of this driver): no other instance has ever run there,
+	// so process-wide state (expression caches, registries) cannot have been shaped by anybody else
+	aAlone, e := runAloneChild(sc.A)
 	if e != "" {
 		return nil, "A alone: " + e
 	}
-	bAlone, e := runAlone(sc.B)
+	bAlone, e := runAloneChild(sc.B)
 	if e != "" {
 		return nil, "B alone: " + e
 	}
